@@ -276,12 +276,11 @@ def make_ref_ctor(group_term_fn):
     return ctor
 
 
-class FromEpName(FnSpec):
-    """Contract of plugin/types.py:from_ep_name as seen by callers (verified separately below where the solvers manage)."""
+from . import epnames  # noqa: E402
 
-    file = "plugin/types.py"
-    qual = "from_ep_name"
-    props = ("C16",)
+
+class FromEpName(epnames.FromEpNameBody):
+    """from_ep_name: body verified on the names to_ep_name makes (epnames.FromEpNameBody); callers see the (name, version) of the entry point name."""
 
     def result(self, cx, a):
         s = a.ep_name.t
@@ -694,14 +693,15 @@ def build(reg):
 
     reg.method_bindings[("PluginGroupForGet", "_get_unsafe")] = get_unsafe
     specs = [EqSpec(), GeSpec(), SupportsSpec(), HashSpec(), GtFromGe(), LeFromGe(), LtFromGe(), AddEp(), ManualRegister(), Versions(), Resolve(), GroupGet()]
-    for s in specs + [FromEpName(), HasNamespace()]:
+    for s in specs + [HasNamespace()]:
         reg.add(s)
+    specs = specs + epnames.add_epnames(reg, FromEpName)
     from . import plugmeta
 
     specs = specs + plugmeta.add_plugmeta(reg)
     return {
         "verify": specs,
         "lemmas": [("total-order", lemma_total_order)],
-        "trusted": ["T4 list.sort/sorted yield an ordered permutation provided < is a strict weak order (the proviso is lemma total-order/strict-weak-order-for-sort)", "T5 pydantic field access returns the stored field values"],
+        "trusted": ["T4 list.sort/sorted yield an ordered permutation provided < is a strict weak order (the proviso is lemma total-order/strict-weak-order-for-sort)", "T5 pydantic field access returns the stored field values"] + epnames.T_EPN,
         "assumptions": [],
     }
